@@ -27,7 +27,9 @@ REPO = os.environ.get('VERIF_REPO', '/repo')
 SCRATCH_ROOT = os.environ.get('VERIF_SCRATCH', '/var/tmp/verif-scratch')
 TOTAL_MEM_GB = float(os.environ.get('VERIF_MEM_GB', '52'))
 MAX_JOBS = int(os.environ.get('VERIF_JOBS', '14'))
-KANI_FLAGS = ['-Z', 'function-contracts', '-Z', 'stubbing']
+# --default-unwind only matters for harnesses without an explicit #[kani::unwind]: on the unchanged tree those are loop-free;
+# if a change introduces a loop into code they reach (e.g. a scan over the 64 squares) the bound keeps CBMC from unrolling forever.
+KANI_FLAGS = ['-Z', 'function-contracts', '-Z', 'stubbing', '--default-unwind', '66']
 
 ENV = dict(os.environ)
 ENV['CARGO_NET_OFFLINE'] = 'true'
